@@ -419,7 +419,46 @@ def rule_g(ctx: Ctx):
                + (f"; violated for {bad}" if bad else ""), construct=f"{cname}._step:dispatch")
 
 
+def rule_h(ctx: Ctx):
+    """C07.h FFSP index tables: `machine_idx` (the global machine an operation is booked on and whose duration column is read)
+    comes from tables.get_machine_index, `stage_machine_idx` (the position inside the stage, used by the policy embedding) from
+    tables.get_stage_machine_index and `stage_idx` from tables.get_stage_index -- the three getters agree only for flattened
+    stages, so a mix-up books stage-1 operations on stage-0 machines in the non-default layout."""
+    env = EnvA(ctx.repo, T.ALL_ENVS["FFSPEnv"], "FFSPEnv")
+    WANT = [("_move_to_next_machine", "machine_idx", "get_machine_index"), ("pre_step", "machine_idx", "get_machine_index"),
+            ("_update_step_state", "stage_machine_idx", "get_stage_machine_index"), ("_update_step_state", "stage_idx", "get_stage_index")]
+    for meth, key, getter in WANT:
+        sl = env.slot(meth)
+        if sl is None:
+            raise AnalysisError(f"FFSPEnv.{meth} not found")
+        ctx.fn(sl.fi)
+        v = sl.cell(key)
+        if v is None:
+            raise AnalysisError(f"FFSPEnv.{meth} does not write {key}")
+        written = []
+        v0 = nf.strip(v)
+        if v0.op == "loop":
+            # loop<init, body>: the body stores into the carried tensor
+            b = nf.strip(v0.args[1])
+            while b.op == "store":            # the chain of stores into the loop-carried tensor
+                written.append(nf.strip(b.args[2]))
+                b = nf.strip(b.args[0])
+        elif v0.op == "store":
+            written.append(nf.strip(v0.args[2]))
+        else:
+            written.append(v0)
+        names = []
+        for w in written:
+            if w.op == "meth" and vg.show(w.args[0], 3).endswith("tables"):
+                names.append(w.args[1])
+            else:
+                names.append(vg.show(w, 2)[:60])
+        ok = bool(names) and all(nm == getter for nm in names)
+        ctx.ob("C07.h", f"FFSPEnv.{meth}:{key}<-tables.{getter}", ok, sl.where, f"{key} is written from {names}", construct=f"FFSPEnv.{meth}:{key}:getter")
+
+
 def run(ctx: Ctx):
+    rule_h(ctx)
     rule_g(ctx)
     rule_a(ctx)
     rule_f(ctx)
